@@ -148,12 +148,13 @@ def alg_sort(info, name="y", G=None):
     theta/2 (quaternion, DCM, Euler) or theta/4 (MRP: tan(theta/4)); SO(2)/SE(2) angle as an Angle atom."""
     from cyverif.sorts import RotVec
     k = 4 if info.so3 == "Mrp" else 2
+    # sampling range of the rotation angle (used only to look for concrete counterexamples; proofs are for all angles)
     if info.kind == "so3":
-        parts = [RotVec(name + "_w", k)]
+        parts = [RotVec(name + "_w", k, 0.2, 5.5)]
     elif info.kind == "se3":
-        parts = [Free(name + "_v", 3), RotVec(name + "_w", k)]
+        parts = [Free(name + "_v", 3), RotVec(name + "_w", k, 0.2, 5.5)]
     elif info.kind == "se23":
-        parts = [Free(name + "_v", 3), Free(name + "_a", 3), RotVec(name + "_w", k)]
+        parts = [Free(name + "_v", 3), Free(name + "_a", 3), RotVec(name + "_w", k, 0.2, 5.5)]
     elif info.kind == "se2":
         parts = [Free(name + "_v", 2), Angle(name + "_th")]
     elif info.kind == "so2":
